@@ -568,6 +568,9 @@ def setattr_value(eng, o, attr, v):
     if isinstance(o, Obj):
         o.attrs[attr] = v
         return
+    h = getattr(eng, 'setattr_hooks', {}).get((value_kind(o), attr))
+    if h is not None:
+        return h(eng, o, v)
     raise EngineError('attribute assignment on %r' % (o,))
 
 
@@ -890,7 +893,8 @@ def make_iter(eng, v):
             return IterV(len(base.concrete) - pos, None, concrete=list(base.concrete[pos:]))
         if isinstance(pos, int) and pos == 0:
             return base
-        it = IterV(_simp_n(_int(base.n) - _int(pos)), lambda i: base.get(_int(i) + _int(pos)))
+        it = IterV(_simp_n(_int(base.n) - _int(pos)), lambda i: base.get(z3.simplify(_int(i) + _int(pos))))
+        it.shift = _int(pos)       # quantified facts about this view are indexed by the position in the underlying sequence
         return it
     if isinstance(v, OneShot):
         if v.consumed:
@@ -1298,6 +1302,10 @@ def b_all(eng, x):
     if it.concrete is not None:
         return eng.And(*[eng.truth(e) for e in it.concrete])
     i = z3.FreshInt('ai')
+    sh = getattr(it, 'shift', None)
+    if sh is not None:
+        body = eng._b(eng.truth(it.get(i - sh)))
+        return z3.ForAll([i], z3.Implies(z3.And(sh <= i, i < _int(it.n) + sh), body))
     body = eng._b(eng.truth(it.get(i)))
     return z3.ForAll([i], z3.Implies(z3.And(0 <= i, i < _int(it.n)), body))
 
@@ -1854,6 +1862,8 @@ def comprehension(eng, node, env, kind):
         finally:
             eng.spec -= 1
     res = IterV(it.n, get)
+    if hasattr(it, 'shift'):
+        res.shift = it.shift
     if kind == 'list':
         return iter_to_list(eng, res)
     return res
